@@ -619,8 +619,11 @@ class Path:
         if not path_parts:
             self.path_t = T
             return
-        if isinstance(path_parts[0], TType):
-            path_t = path_parts[0]
+        first = path_parts[0]
+        if isinstance(first, Path):
+            first = first.path_t  # may be rooted at S or A, like a T-expression
+        if isinstance(first, TType):
+            path_t = first
             offset = 1
         else:
             path_t = T
